@@ -424,8 +424,23 @@ class Unit:
             self.lines.append(ln)
             self.origin.append(dict(owner=owner, label=label, kind=kind, src=src))
 
+    def _load(self, path, nolabels=False):
+        """read a .vc / .vci file, splicing `//@include <file> [nolabels]` recursively"""
+        out = []
+        for ln in open(path, encoding="utf-8").read().split("\n"):
+            if ln.startswith("//@include"):
+                parts = ln.split()
+                inc = os.path.join(os.path.dirname(path), parts[1])
+                out += self._load(inc, nolabels or "nolabels" in parts[2:])
+                continue
+            if nolabels:
+                # an included fragment whose obligations are counted by another unit: labels are blanked
+                ln = re.sub(r"^(\s*//\s*)\[[^\]]*\]", r"\1[]", ln)
+            out.append(ln)
+        return out
+
     def build(self):
-        vc = open(self.vc_path, encoding="utf-8").read().split("\n")
+        vc = self._load(self.vc_path)
         i = 0
         raw_owner, raw_label = None, None
         while i < len(vc):
@@ -586,10 +601,16 @@ class Unit:
                     raise AnchorLost("%s:%d: bad //@replace-stmts" % (self.vc_path, lno))
                 edits.append(("replace", m.group(1), (int(m.group(2)), m.group(3)), lno)); k += 1
                 continue
+            if ln.startswith("//@replace-call"):
+                m = re.match(r"//@replace-call\s+`(.*?)`\s+#(\d+)\s*=>\s*`(.*)`\s*$", ln)
+                if not m:
+                    raise AnchorLost("%s:%d: bad //@replace-call" % (self.vc_path, lno))
+                edits.append(("call", m.group(1), (int(m.group(2)), m.group(3)), lno)); k += 1
+                continue
             if ln.startswith("//@insert"):
                 m = re.match(r"//@insert\s+(before|after|inv)\s+`(.*)`\s*$", ln)
                 if not m:
-                    m = re.match(r"//@insert\s+(tail)()\s*$", ln)
+                    m = re.match(r"//@insert\s+(tail|start)()\s*$", ln)
                 if not m:
                     raise AnchorLost("%s:%d: bad //@insert" % (self.vc_path, lno))
                 body = []
@@ -668,6 +689,30 @@ class Unit:
                     new_body = (new_body[:a] + "let r__ = " + new_body[a:e] + ";\n/*@ghost-begin %d*/\n%s\n/*@ghost-end*/\nr__" % (lno, text)
                                 + new_body[e:])
                     self.counts.add("R9.tail-expression-bound-to-local")
+                    self.counts.add("ghost-insertions")
+                    continue
+                if mode == "call":
+                    nth, repl = ins
+                    btoks = lex(new_body)
+                    ftoks = [t for t in lex(anchor) if t.kind in CODE]
+                    code = [q for q, t in enumerate(btoks) if t.kind in CODE]
+                    hits = []
+                    for ci in range(len(code) - len(ftoks)):
+                        if all(btoks[code[ci + d]].text == ftoks[d].text for d in range(len(ftoks))):
+                            nx = code[ci + len(ftoks)]
+                            if btoks[nx].text in "([{":
+                                hits.append((btoks[code[ci]].start, btoks[match_close(btoks, nx)].end))
+                    if len(hits) < nth:
+                        raise AnchorLost("%s: replace-call `%s` #%d: only %d call(s) found" % (path, anchor, nth, len(hits)))
+                    a, e = hits[nth - 1]
+                    self.dropped.append("fn %s: R6 call `%s` replaced by `%s`" % (path, re.sub(r"\s+", " ", new_body[a:e])[:200], repl))
+                    new_body = new_body[:a] + repl + new_body[e:]
+                    self.counts.add("R6.call-replaced `%s`" % anchor)
+                    continue
+                if mode == "start":
+                    text = "\n".join(x[1] for x in ins)
+                    ob = new_body.index("{") + 1
+                    new_body = new_body[:ob] + "\n/*@ghost-begin %d*/\n%s\n/*@ghost-end*/\n" % (lno, text) + new_body[ob:]
                     self.counts.add("ghost-insertions")
                     continue
                 a, b = find_anchor(new_body, anchor, "%s (%s:%d)" % (path, os.path.basename(self.vc_path), lno))
